@@ -16,11 +16,20 @@ class HA:
         c('clock %d' % self.now)
         c('async_new 0 0 %s' % ('hasign' if kind == 'sign' else 'haextend'))
         self.hosts = ['e%d.example' % (i + 1) for i in range(nep)]
-        for h in self.hosts:
-            c('net_ep %s 1 connect=0 send=- recv=-' % h)
-            q = c('async_endpoint 0 add ksi+tcp://%s:1 anon anon' % h)
+        # the endpoints are configured with addEndpoint only, or the first one with setEndpoint (which resets what was configured before:
+        # here nothing, or a dummy endpoint that must be gone afterwards)
+        self.setup = random.Random('%s/%s/%d' % (label, kind, nep)).choice(['add', 'add', 'set', 'set-after-dummy'])
+        if self.setup == 'set-after-dummy':
+            c('net_ep dummy.example 1 connect=2 send=- recv=-')
+            q = c('async_endpoint 0 add ksi+tcp://dummy.example:1 anon anon')
             if q.rc != 0:
                 raise RuntimeError('addEndpoint rc=%#x' % q.rc)
+        for k, h in enumerate(self.hosts):
+            c('net_ep %s 1 connect=0 send=- recv=-' % h)
+            q = c('async_endpoint 0 %s ksi+tcp://%s:1 anon anon' % ('set' if (k == 0 and self.setup != 'add') else 'add', h))
+            if q.rc != 0:
+                raise RuntimeError('addEndpoint rc=%#x' % q.rc)
+        r.count('ha_setup_' + self.setup)
         if cache != 1:
             c('async_opt 0 cache_size %d' % cache)
         c('async_opt 0 max_request_count 1000')
